@@ -21,7 +21,8 @@ type Lexer struct {
 	peeks  []token.Token
 	isEOF  bool
 
-	reachedEnd bool // the reader is exhausted
+	reachedEnd bool        // the reader is exhausted
+	eofToken   token.Token // the EOF token, once it has been emitted
 
 	customs map[string]token.TokenType
 }
@@ -136,6 +137,12 @@ func (l *Lexer) NextToken() token.Token {
 	if len(l.peeks) > 0 {
 		t, l.peeks = l.peeks[0], l.peeks[1:]
 		return t
+	}
+
+	// EOF is final: a NUL byte ends the input like the end of the reader does,
+	// nothing is lexed after it
+	if l.isEOF {
+		return l.eofToken
 	}
 
 	l.skipWhitespace()
@@ -360,6 +367,8 @@ func (l *Lexer) NextToken() token.Token {
 		if !l.isEOF {
 			l.NewLine()
 			l.isEOF = true
+			l.eofToken = t
+			l.eofToken.File = l.file
 		}
 	case 0x0A: // '\n'
 		t = newToken(token.LF, l.char, line, index)
